@@ -68,7 +68,7 @@ def headroom_identity(conds, C1, C2, fresh, params):
                 if a.key[0].t and a.key[1].t:
                     continue
                 d = a.key[1] - a.key[0]
-                tsat = [x for x in others if x.symname.startswith("Tsat")]
+                tsat = [x for x in others if x.symname.startswith("Tsat") or x.symname == "T"]
                 if d not in tested and any(x.kind in ("fmax", "fmin", "fabs") for x in _aa(d)) and any(x in tsat for x in _aa(d)):
                     tested.append(d)
     notes = []
@@ -89,6 +89,36 @@ def headroom_identity(conds, C1, C2, fresh, params):
                     "on the cell of the moment shares M_sat = %s it equals %s while %s there is %s (the moment shares of a 3-axis demand are not symmetric: max|m| != max m)"
                     % (short(d, 70), r[1], short(r[2], 70), name, short(r[3], 70)), {"witness": r[1]})
     return ("undecided", "; ".join(notes) or "no order comparison of piecewise-linear quantities found", None)
+
+
+def witness_in_case(Xc, want, C1, C2, signs, fresh, params):
+    """Exact evaluation (constant propagation, sa/pointscan.py) of the program's pre-clamp forces and of the value the sign
+    case requires at rational points that lie strictly inside the case.  -> (point, got, required) for the first point
+    where they differ, else None.  A difference is a concrete counterexample in exact arithmetic."""
+    import itertools
+    from fractions import Fraction as Fr
+    from ..pointscan import Scan
+    msyms = [v.single_atom() for k, v in fresh.items() if v.single_atom().symname.startswith("Msat")]
+    tsat = [v.single_atom() for k, v in fresh.items() if v.single_atom().symname.startswith("Tsat")]
+    pa = [p_.s().single_atom() for p_ in params]            # F_max, l, Cm, T
+    for fmax_v, tv in itertools.product((Fr(8), Fr(20)), (Fr(1), Fr(6), Fr(16), Fr(30), Fr(60))):
+        for combo in itertools.product((Fr(-2), Fr(-1), Fr(1, 2), Fr(3)), repeat=len(msyms)):
+            pt = {pa[0]: fmax_v, pa[1]: Fr(1, 4), pa[2]: Fr(1, 16), pa[3]: tv}
+            pt.update({a: tv for a in tsat})
+            pt.update(dict(zip(msyms, combo)))
+            sc = Scan(pt)
+            c1, c2 = sc.poly(C1), sc.poly(C2)
+            if c1 is None or c2 is None or c1 == 0 or c2 == 0:
+                continue
+            if ((c1 > 0) - (c1 < 0), (c2 > 0) - (c2 < 0)) != signs:
+                continue
+            got = [sc.poly(p_) for p_ in Xc.flat()]
+            req = [sc.poly(p_) for p_ in want.flat()]
+            if None in got or None in req:
+                continue
+            if got != req:
+                return ({repr(k): str(v) for k, v in pt.items()}, [str(x) for x in got], [str(x) for x in req])
+    return None
 
 
 def run(w, rep, tier):
@@ -228,9 +258,15 @@ def run(w, rep, tier):
             if left:
                 # a condition that is not literally a sign test of C1 / C2: is the quantity it tests one of them written
                 # differently, or another piecewise-linear function?  (cell decomposition with rational witnesses, sa/cells.py)
-                verdict_h = headroom_identity(left, C1, C2, fresh, [F_max, l, Cm])
+                verdict_h = headroom_identity(left, C1, C2, fresh, [F_max, l, Cm, T])
+                wit = None
+                if not (verdict_h is not None and verdict_h[0] == "different"):
+                    wit = witness_in_case(Xc, want, C1, C2, (s1, s2), fresh, [F_max, l, Cm, T])
                 if verdict_h is not None and verdict_h[0] == "different":
                     rep.fail("C13.cases", inst, verdict_h[1], where=W, fact=verdict_h[2])
+                elif wit is not None:
+                    rep.fail("C13.cases", inst, "at the rational witness %s (which lies in this sign case) the pre-clamp forces are %s, the case requires %s: an unresolved condition (%s) changes the result where it must not"
+                             % (wit[0], wit[1], wit[2], short(left[0], 60)), where=W, fact={"witness": wit[0]})
                 else:
                     rep.incomplete("C13.cases", inst, "conditions not resolved by the signs of C1 = F_max - max(F_sum), C2 = min(F_sum): %s%s" % (
                         short(left[0], 80), "; " + verdict_h[1] if verdict_h else ""), where=W)
